@@ -14,7 +14,8 @@ from synq import walk, show
 
 
 class Inliner:
-    def __init__(self, f, maxdepth=14):
+    def __init__(self, f, maxdepth=14, max_inline=6):
+        self.max_inline = max_inline
         self.f = f
         self.body = f["body"]
         self.par = guards.parents(self.body)
@@ -56,7 +57,7 @@ class Inliner:
             p = e["p"]
             if p in env:
                 return env[p]
-            if _inl < 6:
+            if _inl < self.max_inline:
                 init = self._init_of(e, p)
                 if init is not None:
                     t = self.show(init, strip, env, _depth + 1, _inl + 1)
